@@ -277,3 +277,30 @@ claim(
     'dataflow of the timeout parameter to every blocking call; handler path '
     'enumeration; dominance of validation/defaults',
     'DESIGN.md §4 C10')
+
+claim(
+    'C16', 'other',
+    'Finite tables compared exhaustively with the SMT-LIB signatures embedded '
+    'in the checker: every operator of the result-sort table of '
+    '_get_sort_aux (which operators return Bool/Int/Real, which argument '
+    'carries the sort, select -> element component, fp -> (w(e), 1+w(m)), '
+    'to_fp indices) and every operator of the width table of get_bv_width '
+    '(width expressions compared as polynomials in indices and argument '
+    'widths); the unknown sentinel (-1/None) never flows into arithmetic or '
+    'a constructor (dominating guard required at every use of a recursive '
+    'width); default constants have the requested sort and the two FP '
+    'abbreviation tables agree; table construction stores the sort from the '
+    'position SMT-LIB puts it, no loop variable is clobbered; every '
+    'module-level table is reset between inputs under a global declaration; '
+    'mutators keep no node-dependent state and use get_sort of their own '
+    'node. Exit 0 = every cell agrees; it is not a test of inference on '
+    'terms.',
+    'Partial: inference on actual terms and scoping of let/quantifier names '
+    '(name-keyed, global) are not decided - the property assumes each symbol '
+    'bound once. Trusted: the reference signature tables written in '
+    '/verif/sa/rules/c16.py (Core, Ints, Reals, FixedSizeBitVectors, '
+    'FloatingPoint, Strings, ArraysEx).',
+    'operator-table extraction + comparison with reference signatures; '
+    'polynomial normal forms for widths; dominance of sentinel guards; '
+    'who-resets-what for module tables',
+    'DESIGN.md §4 C16')
